@@ -24,6 +24,9 @@ import (
 type CliCase struct {
 	History ggen.History `json:"history"`
 	Omit    int          `json:"omit,omitempty"`
+	// Spelling of the flags: 0 `-b -t -a -o -m`, 1 the long names, 2 one group `-btaom`, 3 `--basic=true ..`
+	// with the flags left out given as `--team=false`, 4 the short flags in reverse order
+	Spelling int `json:"spelling,omitempty"`
 }
 
 func genCli(t *rapid.T) CliCase {
@@ -32,6 +35,9 @@ func genCli(t *rapid.T) CliCase {
 	c := CliCase{History: genHistory(t, o, 20)}
 	if rapid.IntRange(0, 2).Draw(t, "flagSubset") == 2 {
 		c.Omit = rapid.IntRange(1, 30).Draw(t, "omit")
+	}
+	if rapid.Bool().Draw(t, "otherSpelling") {
+		c.Spelling = rapid.IntRange(1, 4).Draw(t, "spelling")
 	}
 	return c
 }
@@ -102,13 +108,31 @@ func checkCli(c CliCase) pbt.Verdict {
 	}
 
 	flags := []string{"-b", "-t", "-a", "-o", "-m"}
+	long := []string{"--basic", "--team", "--age", "--top", "--summary"}
 	has := map[string]bool{}
 	args := []string{"git"}
+	group := "-"
 	for i, f := range flags {
-		if c.Omit&(1<<i) == 0 {
-			has[f] = true
+		given := c.Omit&(1<<i) == 0
+		has[f] = given
+		switch {
+		case c.Spelling == 3:
+			args = append(args, fmt.Sprintf("%s=%v", long[i], given))
+		case !given:
+		case c.Spelling == 0:
 			args = append(args, f)
+		case c.Spelling == 1:
+			args = append(args, long[i])
+		case c.Spelling == 2:
+			group += f[1:]
+		case c.Spelling == 4:
+			args = append([]string{"git", f}, args[1:]...)
+		default:
+			ggen.HarnessFatal("spelling = %d", c.Spelling)
 		}
+	}
+	if c.Spelling == 2 && group != "-" {
+		args = append(args, group)
 	}
 	res, err := cli.Run("coca", repo.Dir, ggen.HermeticEnv(repo.Home), args...)
 	if err != nil {
@@ -127,10 +151,12 @@ func checkCli(c CliCase) pbt.Verdict {
 	// C15 speaks about correctly parsed histories; the parser is C14's subject
 	data, err := os.ReadFile(filepath.Join(repo.Dir, "coca_reporter", "commits.json"))
 	var parsed []git.CommitMessage
-	if err != nil || json.Unmarshal(data, &parsed) != nil || !sameAsExpected(parsed, exp) {
+	if err == nil && (json.Unmarshal(data, &parsed) != nil || !sameAsExpected(parsed, exp)) {
 		pbt.Count("parser_output_differs_from_history_skipped", 1)
 		return pbt.Verdict{Skip: true}
 	}
+	// no commits.json at all: the command did not get as far as its first step (it prints `Error: unknown
+	// flag` and ends with status 0 when it does not know a flag); what it printed is judged as it is
 
 	// change-log sections come first, then the tables
 	text := res.Stdout
@@ -299,6 +325,10 @@ func checkCli(c CliCase) pbt.Verdict {
 	}
 	add(c.Omit == 0, "all_five_flags")
 	add(c.Omit != 0, "flag_subset")
+	add(c.Spelling == 1, "flags_long_names")
+	add(c.Spelling == 2, "flags_in_one_group")
+	add(c.Spelling == 3, "flags_with_=true_and_=false")
+	add(c.Spelling == 4, "flags_in_reverse_order")
 	add(ref.renames > 0, "rename")
 	add(ref.deletes > 0, "delete")
 	add(authors >= 2, "authors>=2")
